@@ -117,7 +117,7 @@ struct Ev {
     t1: u64,
 }
 
-const FILE: &str = "main.st";
+pub const FILE: &str = "main.st";
 
 #[allow(clippy::too_many_arguments)]
 fn writer(
@@ -291,6 +291,7 @@ pub fn run_case(case: &ConcCase, scratch: &Path, probe: &mut Probe) -> Result<()
     if case.threads.len() < 2 || case.threads.len() > 8 {
         return Ok(());
     }
+    super::guard::check_template(FILE).map_err(|why| format!("unsafe: {FILE:?}: {why}"))?;
     let root = scratch.join("conc");
     let _ = std::fs::remove_dir_all(&root);
     let project = root.join("project");
@@ -344,6 +345,10 @@ pub fn run_case(case: &ConcCase, scratch: &Path, probe: &mut Probe) -> Result<()
         });
         if let Some(t) = panicked {
             result = Err(format!("rep {rep}: writer thread {t} panicked inside the web IDE API"));
+            break;
+        }
+        if let Err(why) = super::moat().intact() {
+            result = Err(format!("rep {rep}: a call reached above the scratch project: {why}"));
             break;
         }
         let disk = std::fs::read_to_string(&file).map_err(|e| format!("infrastructure: read back: {e}"))?;
